@@ -10,7 +10,7 @@ from typing import Dict, List, Optional, Set, Tuple
 from .core import AnalysisError, Report
 from .emit import Folder, Slot, Tpl, balance_errors
 from .prog import (ClassInfo, Program, bind_call, dotted, enclosing, func_params, guards_of,
-                   inline_locals, local_assignments, parent, single_def, unparse, walk_no_nested)
+                   inline_locals, local_assignments, parent, single_def, stmt_of, unparse, walk_no_nested)
 
 PW = "gtwrap/pybind_wrapper.py"
 
@@ -1253,3 +1253,60 @@ def rule_all_children_visited(ctx, rep: Report, rid="A3"):
                 f"`{unparse(c)[:60]}` under {gs}: child namespaces must be visited one by one from `{np_}.content` "
                 f"(a dictionary or a single look-up keeps one block of a re-opened namespace and drops the others)",
                 f"{ci.mod.rel}:{c.lineno}")
+
+
+def rule_boost_export_name(ctx, rep: Report, rid="W7"):
+    """BOOST_CLASS_EXPORT is a macro: a comma inside its argument splits it into two arguments.  A serialisable class whose
+    C++ name contains a comma (`Pair<int, double>`) must therefore be exported under a comma-free alias that a `typedef` in
+    front of the macro introduces - same alias in both lines, both under the test for the comma."""
+    ci, prog = pw(ctx)
+    # the export block lives in wrap_file or in a helper it calls
+    cands = [prog.method("PybindWrapper", "wrap_file")]
+    for c in ast.walk(cands[0]):
+        if isinstance(c, ast.Call) and isinstance(c.func, ast.Attribute) and unparse(c.func.value) == "self":
+            h = prog.find_method(ci, c.func.attr)
+            if h is not None and "BOOST_CLASS_EXPORT" in unparse(h[1]):
+                cands.append(h[1])
+    fn = next((f for f in reversed(cands) if any(isinstance(x, ast.Constant) and isinstance(x.value, str) and "BOOST_CLASS_EXPORT(" in x.value
+                                                 for x in ast.walk(f))), None)
+    if fn is None:
+        raise AnalysisError("BOOST_CLASS_EXPORT emission not found")
+    fo = Folder(prog, ci.mod, None, ci)
+    exp = tdef = None
+    for site in ast.walk(fn):
+        if isinstance(site, ast.JoinedStr) or (isinstance(site, ast.Call) and isinstance(site.func, ast.Attribute) and site.func.attr == "format"):
+            t = fo.fold(site)
+            if t is None:
+                continue
+            lit = " ".join(t.literal("@").split())
+            if lit.startswith("BOOST_CLASS_EXPORT(@)"):
+                exp = (site, t)
+            elif lit.startswith("typedef @ @;"):
+                tdef = (site, t)
+    loc = f"{ci.mod.rel}:{fn.lineno}"
+    if exp is None:
+        raise AnalysisError("BOOST_CLASS_EXPORT(<name>) template not found")
+    name_expr = exp[1].slots()[0].expr
+    nvar = name_expr.id if isinstance(name_expr, ast.Name) else None
+    defs = [st for st in ast.walk(fn) if isinstance(st, ast.Assign) and len(st.targets) == 1 and isinstance(st.targets[0], ast.Name)
+            and st.targets[0].id == nvar] if nvar else []
+    san = []
+    for st in defs:
+        v = st.value
+        if isinstance(v, ast.Call) and unparse(v.func) in ("re.sub",) and len(v.args) == 3 and isinstance(v.args[0], ast.Constant) \
+                and isinstance(v.args[1], ast.Constant) and v.args[1].value == "":
+            pat = v.args[0].value
+            removes_comma = pat.startswith("[") and pat.endswith("]") and "," in pat
+            g = [t.replace(" ", "") for t, pol in guards_of(st, fn, include_exits=False) if pol]
+            san.append((st, removes_comma, g, unparse(v.args[2])))
+    ok_san = len(san) == 1 and san[0][1] and any(g.startswith("','in") for g in san[0][2])
+    rep.add(rid, "boost export:a class name containing a comma is exported under an alias with the commas removed", ok_san,
+            f"alias definitions {[(unparse(s_[0])[:50], s_[1], s_[2]) for s_ in san]}: without the alias BOOST_CLASS_EXPORT(Pair<int, double>) is a "
+            f"macro call with two arguments and does not compile", loc)
+    ok_td = False
+    if tdef is not None and san:
+        s0, s1 = tdef[1].slots()[:2]
+        g = [t.replace(" ", "") for t, pol in guards_of(stmt_of(tdef[0]), fn, include_exits=False) if pol]
+        ok_td = unparse(s1.expr) == nvar and unparse(s0.expr) == san[0][3] and g == san[0][2]
+    rep.add(rid, "boost export:the alias is introduced by `typedef <class> <alias>;` under the same test, in front of the macro", ok_td,
+            "typedef line missing, under another condition, or naming something else than the alias / the class", loc)
